@@ -68,3 +68,60 @@ Proof.
     rewrite <- Hsq. field. assumption.
   - pose proof (sin2_cos2 theta) as H. unfold Rsqr in H. exact H.
 Qed.
+
+(* ---------------------------------------------------------------- small-angle (Taylor) branch *)
+(* R = I + (1 - t2/6) Sr + (1/2 - t2/24) Sr^2 with t2 = |r|^2 is NOT orthogonal; its exact defect is
+   R^T R - I = (t2^2/72 - t2^3/576) Sr^2   (Sr^2 has entries bounded by t2). *)
+Definition taylor_mat (t2 r1 r2 r3 : R) : list (list R) :=
+  let Sr := skew R 0 Ropp r1 r2 r3 in
+  Rmadd (Rmadd Rid3 (Rmsmul (1 - t2 / 6) Sr)) (Rmsmul (/ 2 - t2 / 24) (Rmm 3 Sr Sr)).
+
+Lemma vec2mat_small_branch small_angle max_angle r1 r2 r3 :
+  let theta := sqrt (r1 * r1 + r2 * r2 + r3 * r3) in
+  ~ max_angle < theta -> ~ small_angle < theta ->
+  vec2mat_R small_angle max_angle r1 r2 r3 = taylor_mat (theta * theta) r1 r2 r3.
+Proof.
+  intros theta H1 H2. unfold vec2mat_R. fold theta.
+  destruct (Rlt_dec max_angle theta) as [C|_]; [contradiction|].
+  destruct (Rlt_dec small_angle theta) as [C|_]; [contradiction|]. reflexivity.
+Qed.
+
+Lemma taylor_defect_lemma r1 r2 r3 :
+  let t2 := r1 * r1 + r2 * r2 + r3 * r3 in
+  let M := taylor_mat t2 r1 r2 r3 in
+  let Sr := skew R 0 Ropp r1 r2 r3 in
+  Rmm 3 (Rtrans M) M = Rmadd Rid3 (Rmsmul (t2 * t2 / 72 - t2 * t2 * t2 / 576) (Rmm 3 Sr Sr)).
+Proof.
+  unfold taylor_mat, Rmm, Rtrans, Rid3, Rmadd, Rmsmul. cbn.
+  repeat match goal with
+         | |- cons _ _ = cons _ _ => apply f_equal2
+         | |- nil = nil => reflexivity
+         end; field.
+Qed.
+
+(* consequence: every entry of R^T R - I is at most t2^3/72 in absolute value (0 <= t2 <= 1) *)
+Lemma scaled_entry_bound c e t :
+  0 <= c -> c <= t * t / 72 -> 0 <= t -> - t <= e <= t -> Rabs (c * e) <= t * t * t / 72.
+Proof.
+  intros Hc0 Hc1 Ht [He1 He2]. apply Rabs_le.
+  assert (H1 : 0 <= c * (t - e)) by (apply Rmult_le_pos; lra).
+  assert (H2 : 0 <= c * (t + e)) by (apply Rmult_le_pos; lra).
+  assert (H3 : 0 <= (t * t / 72 - c) * t) by (apply Rmult_le_pos; lra).
+  split; nra.
+Qed.
+
+Lemma taylor_defect_bound_lemma r1 r2 r3 :
+  let t2 := r1 * r1 + r2 * r2 + r3 * r3 in
+  t2 <= 1 ->
+  Forall (Forall (fun x => Rabs x <= t2 * t2 * t2 / 72))
+         (Rmsmul (t2 * t2 / 72 - t2 * t2 * t2 / 576) (Rmm 3 (skew R 0 Ropp r1 r2 r3) (skew R 0 Ropp r1 r2 r3))).
+Proof.
+  intros t2 Ht. unfold Rmsmul, Rmm. cbn.
+  assert (H0 : 0 <= t2) by (unfold t2; nra).
+  set (c := t2 * t2 / 72 - t2 * t2 * t2 / 576).
+  assert (Hc0 : 0 <= c) by (unfold c; nra).
+  assert (Hc1 : c <= t2 * t2 / 72) by (unfold c; nra).
+  repeat (apply Forall_cons || apply Forall_nil).
+  all: apply scaled_entry_bound; try assumption.
+  all: unfold t2; split; nra.
+Qed.
